@@ -30,6 +30,18 @@ PARENT = {"d/a": "d", "d/e": "d", "m/x": "m"}
 PAYLOAD_SRC = 90
 
 
+def plen(d):
+    """length of a payload: real bytes, SymBytes or a FileSlice read from another file"""
+    return d.n if isinstance(d, FileSlice) else sym_len(d)
+
+
+def pbyte(d, i):
+    """z3 term of the i-th byte of a payload"""
+    if isinstance(d, FileSlice):
+        return d.f.byte(_z(d.off) + i)
+    return C(_z(d.src), _z(d.start) + i)
+
+
 class FileC:
     def __init__(self, fid, base_len):
         self.fid, self.base_len, self.log = fid, base_len, []
@@ -42,7 +54,7 @@ class FileC:
     def length(self):
         end = self.base_len
         for o, d in self.log:
-            n = sym_len(d)
+            n = plen(d)
             if symex.is_sym(n) or symex.is_sym(o) or symex.is_sym(end):
                 e = _z(o) + _z(n)
                 end = SymInt(z3.If(z3.And(_z(n) > 0, e > _z(end)), e, _z(end)))
@@ -54,8 +66,8 @@ class FileC:
         """z3 byte term at index x (symbolic mode)"""
         val = z3.If(z3.And(0 <= x, x < _z(self.base_len)), C(self.fid, x), ZERO8)
         for o, d in self.log:
-            oo, n = _z(o), _z(sym_len(d))
-            val = z3.If(z3.And(oo <= x, x < oo + n), C(_z(d.src), _z(d.start) + x - oo), val)
+            oo, n = _z(o), _z(plen(d))
+            val = z3.If(z3.And(oo <= x, x < oo + n), pbyte(d, x - oo), val)
         return val
 
     def bytes_conc(self):
@@ -129,7 +141,7 @@ class OsPath(PurePosixPath):
     def write_bytes(self, data):
         with Handle(self.key(), "wb") as h:
             h.write(data)
-        return sym_len(data)
+        return plen(data)
 
     def read_bytes(self):
         return Handle(self.key(), "rb").read()
@@ -214,7 +226,7 @@ class Handle:
 
     def write(self, data):
         OS.tree.files[self.key].log.append((self.pos, data))
-        self.pos = self.pos + sym_len(data)
+        self.pos = self.pos + plen(data)
 
     def read(self, n=None):
         f = OS.tree.files[self.key]
